@@ -40,7 +40,7 @@ var c17Denoms = [3]string{"uband", "uatom", "ufoo"} // ufoo is never part of the
 type amt3 [3]int64
 
 type c17Op struct {
-	K     string `json:"k"`               // create|deposit|withdraw|activate|deactivate|trigger|fund|update|reimport|sendmod|end
+	K     string `json:"k"`               // create|deposit|withdraw|activate|deactivate|trigger|fund|update|reimport|sendmod|minparams|end
 	U     int    `json:"u,omitempty"`     // signer (create/deposit/withdraw/fund) or offset from the creator (activate/deactivate/trigger/update)
 	T     int    `json:"t,omitempty"`     // late-bound tunnel: id = 1 + T mod (number of tunnels)
 	Ghost bool   `json:"ghost,omitempty"` // use the first id that does not exist
@@ -141,7 +141,7 @@ func genC17(rt *rapid.T) c17Case {
 		} else if creates >= 1 {
 			wCreate = 5
 		}
-		k := gen.Pick(rt, "op", wCreate, 26, 24, 15, 5, 3, 5, 13, 10, 3, 4)
+		k := gen.Pick(rt, "op", wCreate, 26, 24, 15, 5, 3, 5, 13, 10, 3, 4, 3)
 		if i == 0 {
 			k = 0
 		}
@@ -241,6 +241,10 @@ func genC17(rt *rapid.T) c17Case {
 				c.Ops = append(c.Ops, op)
 				op = c17Op{K: "reimport", Dt: 1}
 			}
+		case 11:
+			// governance changes the minimum deposit in flight: just above the total of some active tunnel, doubled,
+			// halved, moved to the other denom, or back to the genesis value
+			op = c17Op{K: "minparams", T: gen.Uniform(rt, "tun", 3), Mode: gen.OneOf(rt, "pmode", "above", "above", "double", "half", "swap", "genesis")}
 		default:
 			op = c17Op{K: "end", Dt: gen.OneOf(rt, "dt", 1, 1, 1, 5, 61)}
 		}
@@ -292,6 +296,8 @@ type refTunnel struct {
 	creator   int
 	dep       [nUsers]amt3
 	active    bool
+	grand     bool     // active while governance raised the minimum above its total: the statement is silent on it until it is next inactive or covered again
+	lenient   bool     // a withdrawal from such a tunnel: deactivation accepted, not demanded
 	route     string   // tss|ibc (create message; never changes in this world)
 	intv      uint64   // configuration: set by the create message, replaced only by a successful update of the creator
 	sigs      []sigDev //
@@ -461,6 +467,7 @@ func runC17(c c17Case) *pbt.Verdict {
 	v := &pbt.Verdict{}
 	tp := tunneltypes.DefaultParams()
 	tp.MinDeposit = toCoins(c.Min)
+	curMin := c.Min // the minimum deposit in force (governance may change it, op "minparams")
 	tp.BasePacketFee = toCoins(amt3{c.Fee, 0, 0})
 	tp.MinInterval, tp.MaxInterval, tp.MaxSignals = pMinInterval, pMaxInterval, pMaxSignals
 	tp.MinDeviationBPS, tp.MaxDeviationBPS = pMinDev, pMaxDev
@@ -486,6 +493,7 @@ func runC17(c c17Case) *pbt.Verdict {
 	var txs [][]byte
 	inapplicable := 0
 	twoDepositors, crossings, crossingsActive := false, 0, 0
+	minChanges := 0
 	updActive, updInactive, updNonCreator := 0, 0, 0
 	sendRefused, sendAccepted := 0, 0
 
@@ -580,7 +588,7 @@ func runC17(c c17Case) *pbt.Verdict {
 					case t == nil:
 					case t.creator != p.signer:
 						v.Class("activate-stranger-rejected")
-					case !covers(t.total(), c.Min):
+					case !covers(t.total(), curMin):
 						v.Class("activate-below-min-rejected")
 					case !t.active:
 						v.Count("converse_mismatch", 1) // creator, covered, inactive, still refused
@@ -641,16 +649,19 @@ func runC17(c c17Case) *pbt.Verdict {
 					v.Failf("C17/overdraw", "user%d withdrew %v from tunnel %d but their own deposit is %v", p.signer, p.amt, p.tid, t.dep[p.signer])
 					return false
 				}
-				before := covers(t.total(), c.Min)
+				before := covers(t.total(), curMin)
 				t.dep[p.signer] = sub(t.dep[p.signer], p.amt)
 				bal[p.signer] = add(bal[p.signer], p.amt)
-				if before && !covers(t.total(), c.Min) {
+				if before && !covers(t.total(), curMin) {
 					crossings++
 					if t.active {
 						crossingsActive++
 					}
 				}
-				if !covers(t.total(), c.Min) {
+				if !covers(t.total(), curMin) {
+					if t.active && t.grand {
+						t.lenient = true // it was below the (raised) minimum before this withdrawal already
+					}
 					t.active = false // statement: deactivated when a withdrawal takes it below the minimum
 				}
 			case "activate":
@@ -662,8 +673,8 @@ func runC17(c c17Case) *pbt.Verdict {
 					v.Failf("C17/activate-by-stranger", "tunnel %d of user%d activated by user%d", p.tid, t.creator, p.signer)
 					return false
 				}
-				if !covers(t.total(), c.Min) {
-					v.Failf("C17/activate-below-min", "tunnel %d activated with total deposit %v below the minimum %v", p.tid, t.total(), c.Min)
+				if !covers(t.total(), curMin) {
+					v.Failf("C17/activate-below-min", "tunnel %d activated with total deposit %v below the minimum %v", p.tid, t.total(), curMin)
 					return false
 				}
 				t.active = true
@@ -827,12 +838,20 @@ func runC17(c c17Case) *pbt.Verdict {
 			if ct.IsActive != activeIdx[id] {
 				v.Failf("C17/flag-vs-index", "tunnel %d IsActive=%v but in active index=%v", id, ct.IsActive, activeIdx[id])
 			}
-			if ct.IsActive && !ct.TotalDeposit.IsAllGTE(minCoins) {
+			if t.grand && (!ct.IsActive || covers(t.total(), curMin)) {
+				t.grand = false
+			}
+			if ct.IsActive && !t.active && t.lenient {
+				t.active = true
+				v.Count("withdrawal_from_tunnel_already_below_raised_min_kept_active", 1)
+			}
+			t.lenient = false
+			if ct.IsActive && !ct.TotalDeposit.IsAllGTE(minCoins) && !t.grand {
 				v.Failf("C17/active-below-min", "tunnel %d is active with total deposit %s below the minimum %s", id, ct.TotalDeposit, minCoins)
 			}
 			if ct.IsActive && !t.active {
-				if !covers(t.total(), c.Min) {
-					v.Failf("C17/active-below-min", "tunnel %d is active with reference total %v below the minimum %v", id, t.total(), c.Min)
+				if !covers(t.total(), curMin) {
+					v.Failf("C17/active-below-min", "tunnel %d is active with reference total %v below the minimum %v", id, t.total(), curMin)
 				}
 				v.Failf("C17/active-unexpected", "tunnel %d is flagged active without a successful activation by its creator (or after a deactivation)", id)
 			}
@@ -916,6 +935,75 @@ func runC17(c c17Case) *pbt.Verdict {
 			}
 			continue
 		}
+		if o.K == "minparams" {
+			if len(txs) > 0 && !flush(1) {
+				return v
+			}
+			newMin := curMin
+			switch o.Mode {
+			case "above":
+				// just above the total of the next active tunnel (in the first denom that takes part, else uband)
+				newMin = curMin
+				for d := 0; d < len(tunnels); d++ {
+					if t := tunnels[(o.T+d)%len(tunnels)]; t.active {
+						tot := t.total()
+						di := 0
+						for i := range curMin {
+							if curMin[i] > 0 {
+								di = i
+								break
+							}
+						}
+						newMin[di] = tot[di] + 1
+						break
+					}
+				}
+			case "double":
+				for i := range newMin {
+					newMin[i] *= 2
+				}
+				if newMin == (amt3{}) {
+					newMin[0] = 1
+				}
+			case "half":
+				for i := range newMin {
+					newMin[i] /= 2
+				}
+			case "swap":
+				newMin[0], newMin[1] = curMin[1], curMin[0]
+			default:
+				newMin = c.Min
+			}
+			np := k.GetParams(ch.Ctx())
+			np.MinDeposit = toCoins(newMin)
+			passed, gres, gerr := ch.GovExec(tunneltypes.NewMsgUpdateParams(sim.GovAuthority(), np))
+			if gerr != nil && len(gres) == 1 && strings.Contains(gerr.Error(), "submit proposal failed") {
+				passed, gerr = false, nil
+				v.Count("minparams_refused", 1)
+			}
+			if gerr != nil {
+				v.Failf("C17/finalize", "governance change of the minimum deposit to %v failed: %v", newMin, gerr)
+				return v
+			}
+			if passed {
+				v.Count("minparams_passed", 1)
+				for _, t := range tunnels {
+					if t.active && !covers(t.total(), newMin) {
+						t.grand = true
+						v.Count("active_tunnels_below_raised_min", 1)
+					}
+				}
+				if newMin != curMin {
+					minChanges++
+				}
+				curMin = newMin
+			}
+			// the blocks of the governance run are not compared one by one; the next block is
+			if !flush(1) {
+				return v
+			}
+			continue
+		}
 		// late-bound tunnel
 		var tid uint64
 		var t *refTunnel
@@ -961,13 +1049,13 @@ func runC17(c c17Case) *pbt.Verdict {
 			var base amt3
 			switch o.Mode {
 			case "min":
-				base = c.Min
+				base = curMin
 			case "bal":
 				base = bal[signer]
 			case "gap":
 				if t != nil {
 					if o.K == "withdraw" {
-						base = sub(t.total(), c.Min) // the excess over the minimum: +1 crosses it
+						base = sub(t.total(), curMin) // the excess over the minimum: +1 crosses it
 						// prefer a withdrawer who can afford it (late-bound, from the reference ledger only)
 						for j := 0; j < nUsers; j++ {
 							cand, fits := (signer+j)%nUsers, true
@@ -982,7 +1070,7 @@ func runC17(c c17Case) *pbt.Verdict {
 							}
 						}
 					} else {
-						base = sub(c.Min, t.total()) // what is missing to reach the minimum
+						base = sub(curMin, t.total()) // what is missing to reach the minimum
 					}
 				}
 			case "own":
@@ -1173,6 +1261,9 @@ func runC17(c c17Case) *pbt.Verdict {
 	if twoDepositors {
 		v.Class("two-depositors")
 	}
+	if minChanges > 0 {
+		v.Class("min-deposit-changed-by-governance")
+	}
 	if crossings > 0 {
 		v.Class("withdraw-crosses-min")
 	}
@@ -1180,7 +1271,7 @@ func runC17(c c17Case) *pbt.Verdict {
 		v.Class("withdraw-crosses-min-while-active")
 	}
 	nMin := 0
-	for _, m := range c.Min {
+	for _, m := range curMin {
 		if m > 0 {
 			nMin++
 		}
